@@ -573,14 +573,18 @@ impl SummaryPrinted {
         ensures map_upd(old(map_)@, final(map_)@, *pathid, printed) { unimplemented!() }
 }
 
+/// the bytes of the message separator: the UTF-8 encoding of the (unescaped) --separator string
+pub open spec fn sep_spec(s: &std::string::String) -> Seq<u8> { vstd::utf8::encode_utf8(s@) }
+// assumed: nothing is known about the value of `Chars::count` (declared so that code using it is checked, not rejected)
+pub assume_specification<'a>[<core::str::Chars<'a> as Iterator>::count](it: core::str::Chars<'a>) -> (r: usize);
+
 #[verifier::exec_allows_no_decreases_clause]
 pub fn pl6_sysline(
     printer: &mut PrinterLogMessage,
     syslinep: &SyslineP,
     pathid: &PathId,
     is_last: IsLastLogMessage,
-    sepb: &[u8],
-    sepb_print: bool,
+    log_message_separator: &std::string::String,
     cli_opt_summary: bool,
     has_print_err: &mut bool,
     summaryprinted: &mut SummaryPrinted,
@@ -592,14 +596,13 @@ pub fn pl6_sysline(
     Ghost(out_in): Ghost<Seq<u8>>,
 ) -> (r: (Ghost<Seq<u8>>, Ghost<bool>))
     requires
-        sepb_print == (sepb@.len() > 0),
-        old(summaryprinted).bytes as int + pay_sys(syslinep).len() + sepb@.len() + 2 <= u64::MAX, old(summaryprinted).flushed < 0x1000_0000_0000_0000,
+        old(summaryprinted).bytes as int + pay_sys(syslinep).len() + sep_spec(log_message_separator).len() + 2 <= u64::MAX, old(summaryprinted).flushed < 0x1000_0000_0000_0000,
         old(summaryprinted).n_msgs() < u64::MAX, old(summaryprinted).lines as int + syslinep.count_lines_spec() <= u64::MAX,
         pay_sys(syslinep).len() <= usize::MAX,
     ensures
         // C02 / C13: this step writes the message's payload, then the separator, then (text logs only) a newline
         // if the file's last message lacks one -- in that order, nothing else
-        r.1@ ==> r.0@ == out_in + pay_sys(syslinep) + sepb@ + (if is_last && !syslinep.ends_with_newline_spec() { seq![10u8] } else { Seq::<u8>::empty() }),
+        r.1@ ==> r.0@ == out_in + pay_sys(syslinep) + sep_spec(log_message_separator) + (if is_last && !syslinep.ends_with_newline_spec() { seq![10u8] } else { Seq::<u8>::empty() }),
         // C19: with --summary the total grows by exactly the bytes written in this step ...
         (r.1@ && cli_opt_summary) ==> final(summaryprinted).bytes as int == old(summaryprinted).bytes + (r.0@.len() - out_in.len()),
         // ... and the file's own entry by exactly the message's payload (separators and the supplied newline belong to no file)
@@ -616,6 +619,8 @@ pub fn pl6_sysline(
     proof { broadcast use group_btree_axioms; broadcast use vstd::std_specs::hash::group_hash_axioms; }
     let ghost mut out = out_in;
     let ghost mut ok = true;
+//@cut slice path=src/bin/s4.rs fn=processing_loop anchor="let sepb: &[u8]" take=range end_anchor="let mut _count_since_received_fileinfo" label=PL6_sep_sysline
+//@end
 //@cut slice path=src/bin/s4.rs fn=processing_loop anchor="LogMessage::Sysline(syslinep) =>" take=arm label=PL6_sysline
 //@replace "if !has_print_err {" "if !*has_print_err {"
 //@replace "has_print_err = true;" "*has_print_err = true;"
@@ -639,8 +644,7 @@ pub fn pl6_fixedstruct(
     pathid: &PathId,
     is_last: IsLastLogMessage,
     buffer_utmp: &mut [u8; 2048],
-    sepb: &[u8],
-    sepb_print: bool,
+    log_message_separator: &std::string::String,
     cli_opt_summary: bool,
     has_print_err: &mut bool,
     summaryprinted: &mut SummaryPrinted,
@@ -652,14 +656,13 @@ pub fn pl6_fixedstruct(
     Ghost(out_in): Ghost<Seq<u8>>,
 ) -> (r: (Ghost<Seq<u8>>, Ghost<bool>))
     requires
-        sepb_print == (sepb@.len() > 0),
-        old(summaryprinted).bytes as int + pay_fix(entry).len() + sepb@.len() + 2 <= u64::MAX, old(summaryprinted).flushed < 0x1000_0000_0000_0000,
+        old(summaryprinted).bytes as int + pay_fix(entry).len() + sep_spec(log_message_separator).len() + 2 <= u64::MAX, old(summaryprinted).flushed < 0x1000_0000_0000_0000,
         old(summaryprinted).n_msgs() < u64::MAX, old(summaryprinted).lines as int + 0 <= u64::MAX,
         pay_fix(entry).len() <= usize::MAX,
     ensures
         // C02 / C13: this step writes the message's payload, then the separator, then (text logs only) a newline
         // if the file's last message lacks one -- in that order, nothing else
-        r.1@ ==> r.0@ == out_in + pay_fix(entry) + sepb@,
+        r.1@ ==> r.0@ == out_in + pay_fix(entry) + sep_spec(log_message_separator),
         // C19: with --summary the total grows by exactly the bytes written in this step ...
         (r.1@ && cli_opt_summary) ==> final(summaryprinted).bytes as int == old(summaryprinted).bytes + (r.0@.len() - out_in.len()),
         // ... and the file's own entry by exactly the message's payload (separators and the supplied newline belong to no file)
@@ -676,6 +679,8 @@ pub fn pl6_fixedstruct(
     proof { broadcast use group_btree_axioms; broadcast use vstd::std_specs::hash::group_hash_axioms; }
     let ghost mut out = out_in;
     let ghost mut ok = true;
+//@cut slice path=src/bin/s4.rs fn=processing_loop anchor="let sepb: &[u8]" take=range end_anchor="let mut _count_since_received_fileinfo" label=PL6_sep_fixedstruct
+//@end
 //@cut slice path=src/bin/s4.rs fn=processing_loop anchor="LogMessage::FixedStruct(entry) =>" take=arm label=PL6_fixedstruct
 //@replace "if !has_print_err {" "if !*has_print_err {"
 //@replace "has_print_err = true;" "*has_print_err = true;"
@@ -697,8 +702,7 @@ pub fn pl6_evtx(
     evtx: &Evtx,
     pathid: &PathId,
     is_last: IsLastLogMessage,
-    sepb: &[u8],
-    sepb_print: bool,
+    log_message_separator: &std::string::String,
     cli_opt_summary: bool,
     has_print_err: &mut bool,
     summaryprinted: &mut SummaryPrinted,
@@ -710,14 +714,13 @@ pub fn pl6_evtx(
     Ghost(out_in): Ghost<Seq<u8>>,
 ) -> (r: (Ghost<Seq<u8>>, Ghost<bool>))
     requires
-        sepb_print == (sepb@.len() > 0),
-        old(summaryprinted).bytes as int + pay_evtx(evtx).len() + sepb@.len() + 2 <= u64::MAX, old(summaryprinted).flushed < 0x1000_0000_0000_0000,
+        old(summaryprinted).bytes as int + pay_evtx(evtx).len() + sep_spec(log_message_separator).len() + 2 <= u64::MAX, old(summaryprinted).flushed < 0x1000_0000_0000_0000,
         old(summaryprinted).n_msgs() < u64::MAX, old(summaryprinted).lines as int + 0 <= u64::MAX,
         pay_evtx(evtx).len() <= usize::MAX,
     ensures
         // C02 / C13: this step writes the message's payload, then the separator, then (text logs only) a newline
         // if the file's last message lacks one -- in that order, nothing else
-        r.1@ ==> r.0@ == out_in + pay_evtx(evtx) + sepb@,
+        r.1@ ==> r.0@ == out_in + pay_evtx(evtx) + sep_spec(log_message_separator),
         // C19: with --summary the total grows by exactly the bytes written in this step ...
         (r.1@ && cli_opt_summary) ==> final(summaryprinted).bytes as int == old(summaryprinted).bytes + (r.0@.len() - out_in.len()),
         // ... and the file's own entry by exactly the message's payload (separators and the supplied newline belong to no file)
@@ -734,6 +737,8 @@ pub fn pl6_evtx(
     proof { broadcast use group_btree_axioms; broadcast use vstd::std_specs::hash::group_hash_axioms; }
     let ghost mut out = out_in;
     let ghost mut ok = true;
+//@cut slice path=src/bin/s4.rs fn=processing_loop anchor="let sepb: &[u8]" take=range end_anchor="let mut _count_since_received_fileinfo" label=PL6_sep_evtx
+//@end
 //@cut slice path=src/bin/s4.rs fn=processing_loop anchor="LogMessage::Evtx(evtx) =>" take=arm label=PL6_evtx
 //@replace "if !has_print_err {" "if !*has_print_err {"
 //@replace "has_print_err = true;" "*has_print_err = true;"
@@ -754,8 +759,7 @@ pub fn pl6_journal(
     journalentry: &JournalEntry,
     pathid: &PathId,
     is_last: IsLastLogMessage,
-    sepb: &[u8],
-    sepb_print: bool,
+    log_message_separator: &std::string::String,
     cli_opt_summary: bool,
     has_print_err: &mut bool,
     summaryprinted: &mut SummaryPrinted,
@@ -767,14 +771,13 @@ pub fn pl6_journal(
     Ghost(out_in): Ghost<Seq<u8>>,
 ) -> (r: (Ghost<Seq<u8>>, Ghost<bool>))
     requires
-        sepb_print == (sepb@.len() > 0),
-        old(summaryprinted).bytes as int + pay_jrnl(journalentry).len() + sepb@.len() + 2 <= u64::MAX, old(summaryprinted).flushed < 0x1000_0000_0000_0000,
+        old(summaryprinted).bytes as int + pay_jrnl(journalentry).len() + sep_spec(log_message_separator).len() + 2 <= u64::MAX, old(summaryprinted).flushed < 0x1000_0000_0000_0000,
         old(summaryprinted).n_msgs() < u64::MAX, old(summaryprinted).lines as int + 0 <= u64::MAX,
         pay_jrnl(journalentry).len() <= usize::MAX,
     ensures
         // C02 / C13: this step writes the message's payload, then the separator, then (text logs only) a newline
         // if the file's last message lacks one -- in that order, nothing else
-        r.1@ ==> r.0@ == out_in + pay_jrnl(journalentry) + sepb@,
+        r.1@ ==> r.0@ == out_in + pay_jrnl(journalentry) + sep_spec(log_message_separator),
         // C19: with --summary the total grows by exactly the bytes written in this step ...
         (r.1@ && cli_opt_summary) ==> final(summaryprinted).bytes as int == old(summaryprinted).bytes + (r.0@.len() - out_in.len()),
         // ... and the file's own entry by exactly the message's payload (separators and the supplied newline belong to no file)
@@ -791,6 +794,8 @@ pub fn pl6_journal(
     proof { broadcast use group_btree_axioms; broadcast use vstd::std_specs::hash::group_hash_axioms; }
     let ghost mut out = out_in;
     let ghost mut ok = true;
+//@cut slice path=src/bin/s4.rs fn=processing_loop anchor="let sepb: &[u8]" take=range end_anchor="let mut _count_since_received_fileinfo" label=PL6_sep_journal
+//@end
 //@cut slice path=src/bin/s4.rs fn=processing_loop anchor="LogMessage::Journal(journalentry) =>" take=arm label=PL6_journal
 //@replace "if !has_print_err {" "if !*has_print_err {"
 //@replace "has_print_err = true;" "*has_print_err = true;"
